@@ -14,6 +14,7 @@ ATTR = [
  ("fix: Delay panicked in debug builds when the delay exactly", ["C08"]),
  ("fix: FftFilterFloat panicked in debug builds", ["C08"]),
  ("fix: derive(Block) generated a new() that did not compile", ["C19"]),
+ ("fix: FftFilterFloat kept a multithreaded graph alive", ["C05"]),
  ("fix: RationalResampler output depended", ["C08", "C10"]),
  ("fix: AuDecode decoded the rest", ["C14"]),
  ("fix: AuDecode panicked", ["C15"]),
